@@ -32,8 +32,8 @@ ASSUMPTIONS = [
 
 
 @st.composite
-def cases(draw):
-    b = draw(functional_program(max_ops=12, min_ops=3, allow_const_view=False))
+def cases(draw, tier="quick"):
+    b = draw(functional_program(max_ops=12 if tier == "quick" else 18, min_ops=3, allow_const_view=False))
     r = b.ref
     tens = [h for h in r.env if r.is_tensor[h] and not r.isint[h]]
     nonconst = [h for h in tens if not r.const[h]]
@@ -182,7 +182,7 @@ def _skeleton(prog):
     return out
 
 
-N = {"quick": 500, "thorough": 8000}
+N = {"quick": 500, "thorough": 4000}
 
 
 def shard_plan(tier):
@@ -191,7 +191,7 @@ def shard_plan(tier):
 
 def run_shard(shard, seed, tier):
     rec = Recorder()
-    viol = drive(prop=PROPERTY, name="dag", strategy=cases(), check_case=lambda c: check_case(c, rec), rec=rec,
+    viol = drive(prop=PROPERTY, name="dag", strategy=cases(tier), check_case=lambda c: check_case(c, rec), rec=rec,
                  seed=seed, max_examples=N[tier])
     out = rec.result()
     out["violations"] = viol
